@@ -190,6 +190,80 @@ func runC18(c *an.Ctx) {
 		})
 		c.MinCount("R5", "request body reads in the connector", nRd, 1)
 	}
+	// the two "is the body accessible" predicates the connector branches on answer from the access switch alone:
+	// they are consulted several times while one response is written, and must not change under the connector's
+	// feet (a predicate that also looks at the phase flips after the body phase ran and strands buffered bytes)
+	for _, pn := range []string{"IsResponseBodyAccessible", "IsRequestBodyAccessible"} {
+		fn := c.FnOpt("internal/corazawaf.(*Transaction)." + pn)
+		if fn == nil {
+			continue
+		}
+		var others []string
+		an.Instrs(fn, func(in ssa.Instruction) {
+			if fa, ok := in.(*ssa.FieldAddr); ok {
+				if fv := an.FieldVar(fa); fv != nil && !strings.HasSuffix(fv.Name(), "BodyAccess") {
+					others = append(others, fv.Name())
+				}
+			}
+			if cc := an.CallOf(in); cc != nil {
+				others = append(others, "a call")
+			}
+		})
+		c.Check(len(others) == 0, "R3", pn+" answers from the access switch alone", fn.Pos(), "reads only *BodyAccess", pn+" also depends on "+strings.Join(others, ", ")+": the http interceptor asks it on every Write and again when the handler returns, so an answer that changes during the response leaves bytes in the buffer that are never sent (or streams bytes that were meant to be inspected)")
+	}
+	// the handler's status reaches the client before any of its body bytes: every hand-over of body bytes to the
+	// delegate writer (Write, ReadFrom) in the interceptor is preceded by flushWriteHeader on every path
+	if c.P.Func("http.(*rwInterceptor).flushWriteHeader") != nil {
+		nDel := 0
+		for _, fn := range c.P.ModFuncs {
+			if relPkg(fn) != "http" || fn.Name() == "flushWriteHeader" {
+				continue
+			}
+			an.Instrs(fn, func(in ssa.Instruction) {
+				cc := an.CallOf(in)
+				if cc == nil || !cc.IsInvoke() || (cc.Method.Name() != "Write" && cc.Method.Name() != "ReadFrom") {
+					return
+				}
+				recv := tempName.ReplaceAllString(an.Expr(cc.Value), "")
+				if !(recv == "i.w" || strings.HasPrefix(recv, "i.w.(")) {
+					return
+				}
+				nDel++
+				w := an.FindPath(an.PathQuery{Fn: fn,
+					Stop: func(x ssa.Instruction) bool {
+						xc := an.CallOf(x)
+						if xc == nil || xc.StaticCallee() == nil {
+							return false
+						}
+						if xc.StaticCallee().Name() == "flushWriteHeader" {
+							return true
+						}
+						// a helper of the interceptor that flushes the status itself before writing (it returns early
+						// only when it already ran, i.e. after a flush)
+						if relPkg(xc.StaticCallee()) == "http" && xc.StaticCallee() != fn {
+							flushes := false
+							an.Instrs(xc.StaticCallee(), func(y ssa.Instruction) {
+								if yc := an.CallOf(y); yc != nil && yc.StaticCallee() != nil && yc.StaticCallee().Name() == "flushWriteHeader" {
+									flushes = true
+								}
+							})
+							return flushes
+						}
+						return false
+					},
+					Target: func(x ssa.Instruction) bool { return x == in }})
+				key := fmt.Sprintf("delegate %s #%d in %s follows flushWriteHeader", cc.Method.Name(), nDel, shortFn(an.RelName(fn)))
+				if why, ok := c18FlushAllow[shortFn(an.RelName(fn))]; ok && w != nil {
+					c.Note("R4", key, in.Pos(), "not decided mechanically; manual argument: "+why)
+				} else if w != nil {
+					c.Bad("R4", key, in.Pos(), "body bytes are handed to the delegate response writer on a path that has not flushed the recorded status: net/http then sends an implicit 200, so the client does not receive the handler's (or the interruption's) status", c.P.TrailString(w)...)
+				} else {
+					c.Ok("R4", key, in.Pos(), "every path to the hand-over passes flushWriteHeader")
+				}
+			})
+		}
+		c.MinCount("R4", "hand-overs of body bytes to the delegate writer", nDel, 2)
+	}
 	// a response interrupted in a response phase declares an empty body before its status is flushed: the first
 	// Write of a handler that never called WriteHeader runs phase 3 from inside Write, after the interruption test
 	// at the top of Write, and goes on to hand its bytes to the delegate — only the declared Content-Length: 0 makes
@@ -523,3 +597,6 @@ func containsBlock(bs []*ssa.BasicBlock, b *ssa.BasicBlock) bool {
 	}
 	return false
 }
+
+// c18FlushAllow: delegate writes in helpers that are only entered after the status was flushed by the caller.
+var c18FlushAllow = map[string]string{}
